@@ -2,13 +2,9 @@
    __and__..., scalar.py __lt__..., extensions/tvl.py). Proof-free: the model
    must still run when a proof breaks. *)
 From Coq Require Import List Arith ZArith Bool.
-From PM Require Import Base.
+From PM Require Import Base Mask.
 Import ListNotations.
 
-(* mask representation: one Python bool, or an array *)
-Inductive mrep := MS (b : bool) | MA (f : mi -> bool).
-Definition mget (m : mrep) (i : mi) : bool :=
-  match m with MS b => b | MA f => f i end.
 
 (* a Boolean object *)
 Record bobj := mkb { bsh : shape; bval : mi -> bool; bmask : mrep }.
@@ -121,15 +117,6 @@ Definition q_all (keep : list bool) (a : bobj) : bobj :=
   end.
 
 (* ---- strict operators & | ^ ~ (masked if any input is) ---- *)
-Definition or_m (m1 m2 : mrep) (s1 s2 : shape) : mrep :=   (* Qube.or_ *)
-  match m1, m2 with
-  | MS true, _ => MS true
-  | MS false, MS b => MS b
-  | MS false, MA f => MA (fun r => f (bproj s2 r))
-  | MA f, MS true => MS true
-  | MA f, MS false => MA (fun r => f (bproj s1 r))
-  | MA f, MA g => MA (fun r => f (bproj s1 r) || g (bproj s2 r))
-  end.
 Definition strict2 (f : bool -> bool -> bool) (a b : bobj) : option bobj :=
   match bshape (bsh a) (bsh b) with
   | None => None
@@ -149,12 +136,6 @@ Fixpoint list_eqb (a b : list Z) : bool :=
   match a, b with
   | [], [] => true
   | x :: a', y :: b' => Z.eqb x y && list_eqb a' b'
-  | _, _ => false
-  end.
-Fixpoint shape_eqb (a b : list nat) : bool :=
-  match a, b with
-  | [], [] => true
-  | x :: a', y :: b' => Nat.eqb x y && shape_eqb a' b'
   | _, _ => false
   end.
 Definition unit_match (u v : option (Z * Z * Z)) : bool :=   (* Units.can_match *)
@@ -258,9 +239,6 @@ Definition obs_eqb (x y : obs) : bool :=
   end.
 
 (* ---- building objects from the list form used in case files ---- *)
-Inductive mrepL := LS (b : bool) | LA (l : list bool).
-Definition mrep_of (s : shape) (m : mrepL) : mrep :=
-  match m with LS b => MS b | LA l => MA (fun i => nth (ravel s i) l false) end.
 Definition mkbL (s : shape) (v : list bool) (m : mrepL) : bobj :=
   mkb s (fun i => nth (ravel s i) v false) (mrep_of s m).
 Definition mknL (s item : shape) (v : list (list Z)) (m : mrepL) (u : option (Z*Z*Z)) : nobj :=
